@@ -50,19 +50,19 @@ var c04Sets = []struct {
 var c04IRT = []fieldVal{{kind: "id", val: c04ID}, {kind: "id2", val: c04ID2}, {kind: "other", val: "id-other"}, {kind: "prefix", val: c04ID[:10]}, {kind: "suffix", val: c04ID + "x"}, {kind: "empty", val: ""}, {kind: "absent", absent: true}}
 
 type c04Case struct {
-	set       int
-	resp      fieldVal
-	confs     []fieldVal
-	allowIDP  bool
-	validator int
-	entry     int // 0 xml 1 post 2 artifact-xml 3 artifact-http
-	arIRT     int // artifact: 0 same 1 other 2 prefix 3 empty 4 absent 5 previous resolve id (http only)
-	arSigned  bool
-	layout    int
-	methods   []int // confirmation Method per confirmation (index into confMethods)
-	firstFail int   // artifact over HTTP: 0 none; 1 the first back-channel call fails (transport error), 2 answers 503; any further call is answered with the FIRST request's ID
-	respIsResolveID bool // artifact entries, unsigned Response: its InResponseTo is the ID of the ArtifactResolve request (a back-channel ID, never one the caller declared outstanding)
-	noDest    bool  // Response carries no Destination (only meaningful when the Response itself is unsigned, layout 1)
+	set             int
+	resp            fieldVal
+	confs           []fieldVal
+	allowIDP        bool
+	validator       int
+	entry           int // 0 xml 1 post 2 artifact-xml 3 artifact-http
+	arIRT           int // artifact: 0 same 1 other 2 prefix 3 empty 4 absent 5 previous resolve id (http only)
+	arSigned        bool
+	layout          int
+	methods         []int // confirmation Method per confirmation (index into confMethods)
+	firstFail       int   // artifact over HTTP: 0 none; 1 the first back-channel call fails (transport error), 2 answers 503; any further call is answered with the FIRST request's ID
+	respIsResolveID bool  // artifact entries, unsigned Response: its InResponseTo is the ID of the ArtifactResolve request (a back-channel ID, never one the caller declared outstanding)
+	noDest          bool  // Response carries no Destination (only meaningful when the Response itself is unsigned, layout 1)
 }
 
 func (k c04Case) String() string {
@@ -357,10 +357,12 @@ func c04Run(c *core.Ctx, o *so.Oracle, k c04Case) {
 	case k.validator == 1:
 		// custom validator: no ID verdict (the confirmation level is still checked by the library unless IdP-initiated is allowed)
 		if k.allowIDP {
-			acceptRequired = true
+			acceptRequired = respOK && confOK
 		}
 	case k.allowIDP:
-		acceptRequired = true
+		// IdP-initiated login allowed: the "only if" part is waived, nothing more. What stays required is that a valid
+		// response to an outstanding request is accepted; what an implementation does with other IDs is its own business
+		acceptRequired = respOK && confOK
 	default:
 		acceptRequired = respOK && confOK
 		rejectRequired = !acceptRequired
